@@ -52,7 +52,7 @@ def label_oracle(aliases: dict, m: str) -> str:
 
 
 def gen_aliases(rng, nodes):
-    k = rng.randint(0, min(4, len(nodes)))
+    k = rng.randint(0, min(4, len(nodes))) if len(nodes) < 20 else rng.randint(5, 12)
     keys = rng.sample(nodes, k)
     if rng.random() < 0.5 and len(nodes) > 2:
         # force nested aliased modules
@@ -131,7 +131,10 @@ def run(ctx: Ctx):
     wire, refs = [], []
     for i in range(n):
         rng = ctx.rng
-        nodes = rules.rand_tree(rng, rng.choice((rules.COLLISION_FREE, rules.ADVERSARIAL, SELF_SIMILAR, SELF_SIMILAR)), max_nodes=rng.choice([4, 8, 12]))
+        if rng.random() < 0.1:
+            nodes = rules.rand_tree(rng, rules.LARGE_POOL, max_nodes=40, max_depth=7)      # many modules, deep chains, numbered / non-ASCII / long names
+        else:
+            nodes = rules.rand_tree(rng, rng.choice((rules.COLLISION_FREE, rules.ADVERSARIAL, SELF_SIMILAR, SELF_SIMILAR)), max_nodes=rng.choice([4, 8, 12]))
         edges = rules.rand_edges(rng, nodes, 5)
         aliases = gen_aliases(rng, nodes) if rng.random() < 0.85 else None
         if aliases is not None and rng.random() < 0.08:
